@@ -148,6 +148,8 @@ pub struct Spec {
     pub signature: fn(&G, &Outcome, &str) -> Option<String>,
     /// the parsers were built with `Opts { slice: true }` (every node also captures its slice)
     pub slice: bool,
+    /// the parsers were built with `Opts { obs: true }` (every node also observes inspector state and context)
+    pub obs: bool,
     /// also run check() and compare acceptance/errors/state/trace with the model
     pub also_check: bool,
 }
@@ -171,7 +173,7 @@ pub fn model_case<'s, I: Kind<'s>, ER: ErrK<'s, I>>(acc: &mut Acc, spec: &Spec, 
 where
     I::Span: Clone + 's,
 {
-    let m = model::run_opts2(g, &buf.chars, St::fresh(0), MODEL_BUDGET, true, spec.slice);
+    let m = model::run_opts3(g, &buf.chars, St::fresh(0), MODEL_BUDGET, true, spec.slice, spec.obs);
     acc.evaluations += 1;
     if m.pathological {
         acc.pathological += 1;
